@@ -24,7 +24,7 @@ FLAGNAME = {'EmptyFlags': 0, 'XIsPositive': 0, 'XIsNegative': 1, 'YIsPositive': 
 BYTES_IN = {'from_le_bytes_mod_order', 'from_bytes_checked', 'rand', 'ark.from_be_bytes_mod_order', 'ark.from_le_bytes_mod_order', 'ark.deser', 'ark.from_random_bytes'}
 BYTES_OUT = {'hash', 'to_bytes', 'to_bytes_le', 'ark.ser'}
 LIMBS_IN = {'ark.from_bigint', 'ark.from_bigint_conv'}
-LIST_IN = {'sum.v', 'sum.r', 'product.v', 'product.r'}
+LIST_IN = {'sum.v', 'sum.r', 'product.v', 'product.r', 'sum.lazy', 'product.lazy'}
 ERR = {'InvalidEncoding': 1, 'Ser:InvalidData': 1, 'Ser:IoError': 3, 'Ser:UnexpectedFlags': 4, 'Ser:NotEnoughSpace': 5}
 
 def blist(h): b = bytes.fromhex(h) if h != '-' else b''; return [len(b)] + list(b)
